@@ -373,8 +373,12 @@ theorem authorizeUpdate_no_panic (cfg : ZoneCfg) (req : Req) (buf : Bytes) (now 
   · split
     · simp
     · split
-      · exact authorizedTsig_no_panic _ _ _ _ _ _
       · simp
+      · split
+        · simp
+        · split
+          · exact authorizedTsig_no_panic _ _ _ _ _ _
+          · simp
 
 theorem authorizeAxfr_no_panic (cfg : ZoneCfg) (req : Req) (buf : Bytes) (now : Nat)
     (rdok : Bool) (s : String) : authorizeAxfr cfg req buf now rdok ≠ .panic s := by
